@@ -97,6 +97,16 @@ def scenarios(ctx):
             for nx in ((0, 1) if not ctx.quick else (rnd.choice([0, 1]),)):
                 n += 1
                 out.append(one("c18-%03d" % n, rnd, hook, order, nx, rnd.choice([("before", "after"), ("after",), ("before",)])))
+    if not ctx.quick:
+        # every hook x order x number of extensions x when the credentials are asked, with fresh random error types
+        for hook in HOOKS:
+            for order in ("poll-first", "restore-first"):
+                if hook in ("nopoll", "next-before-restore") and order == "restore-first":
+                    continue
+                for nx in (0, 1, 2):
+                    for cw in (("before", "after"), ("after",), ("before",), ()):
+                        n += 1
+                        out.append(one("c18-%03d" % n, rnd, hook, order, nx, cw))
     # plain mode: the snapshot routes and the credentials endpoint do not exist
     s = Scn("c18-plain", ext=[], timeout_ms=400)
     s.meta(family="restore-plain")
